@@ -41,8 +41,8 @@ func sgJoin(a, b sg) sg {
 
 type signState struct {
 	cells   map[string]sg
-	leq     map[string]bool // "a<=b"
-	written map[string]bool // cells rewritten in place on some path to here
+	leq     map[string]bool      // "a<=b"
+	written map[string]bool      // cells rewritten in place on some path to here
 	rep     map[string]ssa.Value // for a cell rewritten in place: a value that denotes it
 }
 
